@@ -770,8 +770,11 @@ class Executor:
                     env[dest] = simp(z3.Extract(w-1, 0, z3.LShR(cat, z3.ZeroExt(w, sh))))
                 return
             if name.startswith('llvm.memcpy') or name.startswith('llvm.memmove'):
-                d, s, n = args[0][1], args[1][1], full_simp(args[2][1])
-                if not z3.is_bv_value(n): raise Outcome('unsupported', 'memcpy symbolic len')
+                d, s, n = args[0][1], args[1][1], self.const_off(st, args[2][1])
+                if not z3.is_bv_value(n):
+                    cap = 4096
+                    if not isinstance(d.obj, tuple) and d.obj != 0: cap = len(st.mem.objs[d.obj])
+                    raise Concretize(n, list(range(0, cap + 1)))
                 n = n.as_long(); so = self.const_off(st, s.off); do = self.const_off(st, d.off)
                 if n == 0: return
                 if not z3.is_bv_value(so): raise Concretize(so, list(range(0, 4096)))
